@@ -9,6 +9,7 @@ for k in 1 2 3; do
   python3 /verif/tools/confirm_mutation.py $P $k > /tmp/seedlogs/$P-$k.confirm 2>&1
   if grep -q '"confirmed": true' /tmp/seedlogs/$P-$k.confirm; then
     flock /tmp/seedlogs/.lock python3 /verif/tools/mutrun.py $P /verif/seeded/$P-$k/patch.diff --tier quick > /tmp/seedlogs/$P-$k.quick 2>&1
+    grep -E "VIOLATION|^OK|EXIT" /tmp/seedlogs/$P-$k.quick | grep -v "Lean library does not build" | cut -c1-400 | head -8 > /verif/seeded/$P-$k/check_quick.txt
     echo "$P-$k confirmed quick: $(grep -c VIOLATION /tmp/seedlogs/$P-$k.quick) violations, $(grep EXIT /tmp/seedlogs/$P-$k.quick)" >> /tmp/seedlogs/summary
   else
     echo "$P-$k NOT confirmed" >> /tmp/seedlogs/summary
